@@ -12,6 +12,6 @@ PROP = dict(
 )
 META = dict(
     technique="Lean 4 proof (ViewPort arithmetic over all states; BoxLayout share computation over exact rationals, generic in the number type) + differential correspondence of ViewPort and BoxLayout-tree models with views/ under op histories, recording parent View / recording child widgets as oracle",
-    text="Theorems in Tcell.Props.C20 prove, for every ViewPort state and argument, containment and translation of forwarded SetContent/Fill calls, clamping after every scrolling/centring/make-visible/SetSize/SetContentSize from any prior state, monotone auto-grow and that MakeVisible makes the cell visible; for every child list, that the BoxLayout rectangles are ordered, disjoint, inside the view, at least the preferred extent when space suffices, and that the surplus is distributed exactly and within one cell of the proportional share (exact arithmetic). The models are tied to views/view.go and views/boxlayout.go by random op histories compared observation by observation (Float instance bit-exact with float64); a Go oracle written from the property text checks the statement on the real code.",
+    text="Theorems in Tcell.Props.C20 prove, for every ViewPort state and argument, containment and translation of forwarded SetContent/Fill calls, clamping after every scrolling/centring/make-visible/SetSize/SetContentSize from any prior state, monotone auto-grow and that MakeVisible makes the cell visible; for every child list, that the BoxLayout rectangles are ordered, disjoint, inside the view, at least the preferred extent when space suffices, and that the surplus is distributed exactly (pads_total) and in proportion to the fill factors cell for cell (pads_proportional, full strength: floor(share_i) <= pad_i <= floor(share_i)+1 and |pad_i - share_i| < 1, i.e. the largest-remainder pass never picks a cell twice; exact arithmetic). The models are tied to views/view.go and views/boxlayout.go by random op histories compared observation by observation (Float instance bit-exact with float64); a Go oracle written from the property text checks the statement on the real code.",
     note="Trusted: Lean kernel, sampled model-code correspondence, float64 vs exact arithmetic gap (monitored, not proved).",
 )
